@@ -1,7 +1,7 @@
 #!/bin/bash
-# usage: tools/seed_verify.sh <ID> [<check ids to run, default ID>]  — confirms a sub-agent's seeded change and runs our checks against it
+# usage: [WT_ROOT=/tmp/wt2 SUFFIX=_2] tools/seed_verify.sh <ID> [<check ids to run, default ID>]  — confirms a sub-agent's seeded change and runs our checks against it
 id=$1; shift; checks=${@:-$id}
-wt=/tmp/wt/$id; out=/verif/seeded/$id; mkdir -p $out
+wt=${WT_ROOT:-/tmp/wt}/$id; out=/verif/seeded/$id${SUFFIX:-}; mkdir -p $out; export SEED_DIR=$(basename $out)
 cd $wt || exit 2
 # the agent's patch file is the source of truth (git stash is shared between worktrees and must not be used)
 if [ -f patch_$id.diff ]; then cp patch_$id.diff $out/patch.diff; else git diff -- pennylane > $out/patch.diff; fi
@@ -25,8 +25,8 @@ meta={"property":id,"title":props[id]["title"],"demo_exit_with_change":int(w),"d
  "pinned_suite_with_change":base.strip(),"our_checks_run":checks.split(),"our_checks_result":res.strip(),
  "confirmed": int(w)!=0 and int(wo)==0 and "missing=0" in base,
  "detected": "exit=1" in res and "VIOLATION" in res,
- "ran":["demo with change (git apply patch)","demo without change (git checkout -- pennylane)","tools/baseline.sh <worktree>","tools/mut.sh seeded/%s/patch.diff %s"%(id,checks)]}
-p=f'/verif/seeded/{id}/meta.json'
+ "ran":["demo with change (git apply patch)","demo without change (git checkout -- pennylane)","tools/baseline.sh <worktree>","tools/mut.sh seeded/%s/patch.diff %s"%(os.environ["SEED_DIR"],checks)]}
+p=f'/verif/seeded/{os.environ["SEED_DIR"]}/meta.json'
 old=json.load(open(p)) if os.path.exists(p) else {}
 old.update(meta); json.dump(old,open(p,'w'),indent=1)
 print(json.dumps(meta,indent=1))
